@@ -23,7 +23,10 @@ def REVERT(name): return dict(k="revert", name=name)
 def REOPEN(pre): return dict(k="reopen", pre=bool(pre))
 def RELOAD(pre): return dict(k="reload", pre=bool(pre))
 def PUNCH(b): return dict(k="punch", b=bool(b))
-def RESIZE(nb): return dict(k="resize", nb=nb)
+def RESIZE(nb, spell=""):
+    """spell: how the size is written in the request ("" = plain byte count; see harness/cmd/block Op.Spell)"""
+    return dict(k="resize", nb=nb, spell=spell) if spell else dict(k="resize", nb=nb)
+SPELLINGS = ["", "", "", "k", "K", "kb", "KB", "KiB", "ki", " k", "m", "int64"]
 LUN = dict(k="lun")
 def CAND(cp): return dict(k="cand", cp=cp)          # cp = -1: no checkpoint
 def RF(off, ln, file): return dict(k="rf", off=off, len=ln, file=file)     # read while chain file `file` (1 = base) cannot be read
@@ -178,12 +181,14 @@ class Gen:
         acc += w_rsz
         if x < acc:
             r = rng.random()
+            sp = rng.choice(SPELLINGS)
             if r < 0.6 and self.nb < 24:
                 self.nb += rng.randint(1, 4)
-                return RESIZE(self.nb)
+                return RESIZE(self.nb, sp)
             if r < 0.8:
-                return RESIZE(self.nb)
-            return RESIZE(max(0, self.nb - rng.randint(1, 3)))
+                return RESIZE(self.nb, sp)
+            nb = max(0, self.nb - rng.randint(1, 3))
+            return RESIZE(nb, sp if nb > 0 or sp != "int64" else "")
         acc += 0.02
         if x < acc:
             return LUN
@@ -813,7 +818,9 @@ RULE = {
            "non-trivial = a snapshot was deleted, or a protected member was refused, or a non-empty candidate list, or a cleaner pass "
            "merged and removed a snapshot, or kept it after a failed merge; distinct by operation list",
     "C16": "random histories with Server.Resize (grow / equal / shrink) interleaved with I/O, snapshots, reopen; enumerated grow-write-reopen "
-           "and shrink cases. non-trivial = the volume grew or a shrink was refused; distinct by operation list",
+           "and shrink cases; the new size is written as a plain byte count, with a unit suffix (k K kb KB KiB ki ' k', a decimal fraction "
+           "of m: binary multipliers as units.RAMInBytes reads them) or handed over as int64 (Replica.Resize). "
+           "non-trivial = the volume grew or a shrink was refused; distinct by operation list",
 }
 
 
@@ -850,11 +857,13 @@ def resize_enum_cases():
     K = 8
     for punch in (False, True):
         for pre in (False, True):
-            ops = [W(0, 4 * K, 1), SNAP(1, True), W(K, K, 2), SNAP(2, False), W(3, 2 * K, 3),
-                   RESIZE(7), R(0, 7 * K), W(4 * K - 3, 2 * K, 4), W(6 * K, K, 5), REOPEN(pre), R(3 * K, 4 * K),
-                   RESIZE(5), RESIZE(7), RESIZE(0), SNAP(3, True), RESIZE(9), W(8 * K + 1, K - 1, 6), RELOAD(pre),
-                   REVERT(1), R(0, 9 * K)]
-            out.append(mkcase(ops, K=K, nb=4, punch=punch, rev=True))
+            # the same history with the sizes written as plain byte counts, and with unit suffixes / as int64
+            for sp in (("", "", "", "", ""), ("k", "KiB", "m", "kb", "int64")):
+                ops = [W(0, 4 * K, 1), SNAP(1, True), W(K, K, 2), SNAP(2, False), W(3, 2 * K, 3),
+                       RESIZE(7, sp[0]), R(0, 7 * K), W(4 * K - 3, 2 * K, 4), W(6 * K, K, 5), REOPEN(pre), R(3 * K, 4 * K),
+                       RESIZE(5, sp[1]), RESIZE(7, sp[2]), RESIZE(0, sp[3]), SNAP(3, True), RESIZE(9, sp[4]), W(8 * K + 1, K - 1, 6),
+                       RELOAD(pre), REVERT(1), R(0, 9 * K)]
+                out.append(mkcase(ops, K=K, nb=4, punch=punch, rev=True))
     return out
 
 
